@@ -246,6 +246,13 @@ static inline size_t vit_checked_index(size_t i, size_t n)
     static inline NAME CONT##_cbegin(const CONT *c) { return (NAME){(CONT *)c, 0}; }          \
     static inline NAME CONT##_cend(const CONT *c) { return (NAME){(CONT *)c, CONT##_size(c)}; }
 
+/* std::iota over a vector of integers (instantiated only where the lowered code uses it) */
+#define IOTA_DECL(IT)                                                                         \
+    static inline void IT##_iota(IT first, IT last, size_t v0)                                \
+    {                                                                                         \
+        for (; first.i != last.i; ++first.i)                                                  \
+            first.v->d[first.i] = v0++;                                                       \
+    }
 /* std::copy(first, last, std::back_inserter(dst)) between vectors of the same element type */
 #define COPY_BACK_DECL(IT, DST)                                                               \
     static inline void IT##_copy_back_##DST(IT first, IT last, DST *dst)                      \
@@ -351,11 +358,6 @@ static inline size_t vit_checked_index(size_t i, size_t n)
             v->d[k] = v->d[k + gap];                                                          \
         v->n -= gap;                                                                          \
         return first;                                                                         \
-    }                                                                                         \
-    static inline void IT##_iota(IT first, IT last, NAME##_elem_t v0)                         \
-    {                                                                                         \
-        for (; first.i != last.i; ++first.i)                                                  \
-            first.v->d[first.i] = v0++;                                                       \
     }                                                                                         \
     COPY_BACK_DECL(IT, NAME)                                                                  \
     static inline IT NAME##_erase_1(NAME *v, IT it)                                           \
